@@ -124,6 +124,15 @@ func init() {
 		addNet := func(n anet, why string) bool {
 			ipn := n.ipnet()
 			got := util.IntersectsIANAReserved(ipn)
+			if !n.v6 {
+				// the same IPv4 range spelled in its IPv4-mapped 32-octet form (what a 32-octet iPAddress name constraint
+				// parses to) is the same network
+				mapped := net.IPNet{IP: ipn.IP.To16(), Mask: net.CIDRMask(96+n.plen, 128)}
+				if got16 := util.IntersectsIANAReserved(mapped); got16 != got {
+					out.Violate("C19|mapped-form-net:"+ipn.String(), "the 4-byte and IPv4-mapped spellings of "+ipn.String()+" are classified differently",
+						map[string]interface{}{"net": ipn.String(), "mapped": mapped.String()}, got, got16)
+				}
+			}
 			term := fmt.Sprintf("(%s, %s)", n.Coq(), cqBool(got))
 			if !seenN[term] {
 				seenN[term] = true
